@@ -1,6 +1,7 @@
 #pragma once
 
 #include <crab/domains/abstract_domain.hpp>
+#include <crab/domains/backward_assign_operations.hpp>
 #include <crab/domains/combined_domains.hpp>
 #include <crab/support/debug.hpp>
 #include <crab/support/os.hpp>
@@ -320,19 +321,19 @@ public:
   
   void backward_assign(const variable_t &x, const linear_expression_t &e,
                        const this_type &invariant) override {
-    CRAB_WARN(domain_name(), "::backward_assign not implemented");
+    BackwardAssignOps<this_type>::assign(*this, x, e, invariant);
   }
 
   void backward_apply(arith_operation_t op, const variable_t &x,
                       const variable_t &y, number_t z,
                       const this_type &invariant) override {
-    CRAB_WARN(domain_name(), "::backward_apply not implemented");
+    BackwardAssignOps<this_type>::apply(*this, op, x, y, z, invariant);
   }
 
   void backward_apply(arith_operation_t op, const variable_t &x,
                       const variable_t &y, const variable_t &z,
                       const this_type &invariant) override {
-    CRAB_WARN(domain_name(), "::backward_apply not implemented");
+    BackwardAssignOps<this_type>::apply(*this, op, x, y, z, invariant);
   }
 
   // TODO: we should implement these operations
